@@ -396,12 +396,16 @@ Definition exp_object_key : list string := [
 ].
 Definition exp_evaluate_import : list string := [
   "func (*evalContext) evaluateImport(map[string]*value, *ast.ImportDecl)";
+  "!$r.imports[$p1.Environment.Value].evaluating & $r.imports[$p1.Environment.Value].failed & ($p1.Environment != nil) & ok($r.imports[$p1.Environment.Value]) => return";
+  "!ok($r.imports[$p1.Environment.Value]) & ($p1.Environment != nil) & (@LoadEnvironment#2 != nil) => $r.imports[$p1.Environment.Value] = &imported{failed: true}";
   "!ok($r.imports[$p1.Environment.Value]) & ($p1.Environment != nil) & (@LoadEnvironment#2 != nil) => diag";
   "!ok($r.imports[$p1.Environment.Value]) & ($p1.Environment != nil) & (@LoadEnvironment#2 != nil) => return";
   "!ok($r.imports[$p1.Environment.Value]) & ($p1.Environment != nil) & (@LoadEnvironment#2 == nil) & (@LoadYAMLBytes#0 != nil) & (@LoadYAMLBytes#2 == nil) => $r.diags.Extend(@evaluate#1...)";
   "!ok($r.imports[$p1.Environment.Value]) & ($p1.Environment != nil) & (@LoadEnvironment#2 == nil) & (@LoadYAMLBytes#0 != nil) & (@LoadYAMLBytes#2 == nil) => $r.imports[$p1.Environment.Value].value = @evaluate#0";
   "!ok($r.imports[$p1.Environment.Value]) & ($p1.Environment != nil) & (@LoadEnvironment#2 == nil) & (@LoadYAMLBytes#0 != nil) & (@LoadYAMLBytes#2 == nil) => let @evaluate";
+  "!ok($r.imports[$p1.Environment.Value]) & ($p1.Environment != nil) & (@LoadEnvironment#2 == nil) & (@LoadYAMLBytes#0 == nil) & (@LoadYAMLBytes#2 == nil) => $r.imports[$p1.Environment.Value] = &imported{failed: true}";
   "!ok($r.imports[$p1.Environment.Value]) & ($p1.Environment != nil) & (@LoadEnvironment#2 == nil) & (@LoadYAMLBytes#0 == nil) & (@LoadYAMLBytes#2 == nil) => return";
+  "!ok($r.imports[$p1.Environment.Value]) & ($p1.Environment != nil) & (@LoadEnvironment#2 == nil) & (@LoadYAMLBytes#2 != nil) => $r.imports[$p1.Environment.Value] = &imported{failed: true}";
   "!ok($r.imports[$p1.Environment.Value]) & ($p1.Environment != nil) & (@LoadEnvironment#2 == nil) & (@LoadYAMLBytes#2 != nil) => diag";
   "!ok($r.imports[$p1.Environment.Value]) & ($p1.Environment != nil) & (@LoadEnvironment#2 == nil) & (@LoadYAMLBytes#2 != nil) => return";
   "!ok($r.imports[$p1.Environment.Value]) & ($p1.Environment != nil) & (@LoadEnvironment#2 == nil) => $r.diags.Extend(@LoadYAMLBytes#1...)";
